@@ -2,7 +2,8 @@
    The harness (harness/producer, harness/c01, harness/c04) drives the real block.Manager with a history
    and writes, per case: the history, what the code did per item (result class, ExecuteTxs call, cursor
    passed to the sequencer, shapes of the atomic datastore writes, store height and recorded state
-   afterwards) and the projection of the block record stored at every height at the end.
+   afterwards, and the projection of the block records the node's store SERVES afterwards at the store height
+   and at the pending height above it) and the projection of the block record served at every height at the end.
    [mismatches] lists the cases on which the model disagrees. Only projected observables are compared. *)
 From Coq Require Import String NArith ZArith List Bool.
 From Verif Require Import Base.KV Base.Keys Model.Types Model.Producer.
@@ -10,16 +11,6 @@ Import ListNotations.
 Open Scope N_scope.
 
 Inductive shape := HCursor (c : N) | HBlock (n : N) | HHeight (n : N) | HState | HOther.
-
-Record obs := mk_obs {
-  ob_res : N;                                  (* result class, see [res_code] *)
-  ob_n : N;                                    (* committed height (0 otherwise) *)
-  ob_call : option (N * list N * Z * N);       (* ExecuteTxs(height, txs, time, previous root) *)
-  ob_req : option N;                           (* cursor passed to GetNextBatch *)
-  ob_shapes : list shape;                      (* atomic writes that reached the datastore, in order *)
-  ob_height : N;                               (* store height afterwards *)
-  ob_state : option (N * Z * N)                (* recorded state afterwards: height, time, app root *)
-}.
 
 Record pblock := mk_pb {
   pb_height : N; pb_time : Z; pb_txs : list N;
@@ -32,6 +23,18 @@ Record pblock := mk_pb {
   pb_ssig : N;      (* signature record: 0 empty, 1 equal to the header signature, 2 other *)
   pb_meta : N;      (* data metadata: 0 none, 1 matches the header, 2 differs *)
   pb_vbasic : N     (* SignedHeader.ValidateBasic *)
+}.
+
+Record obs := mk_obs {
+  ob_res : N;                                  (* result class, see [res_code] *)
+  ob_n : N;                                    (* committed height (0 otherwise) *)
+  ob_call : option (N * list N * Z * N);       (* ExecuteTxs(height, txs, time, previous root) *)
+  ob_req : option N;                           (* cursor passed to GetNextBatch *)
+  ob_shapes : list shape;                      (* atomic writes that reached the datastore, in order *)
+  ob_height : N;                               (* store height afterwards *)
+  ob_state : option (N * Z * N);               (* recorded state afterwards: height, time, app root *)
+  ob_tip : list (option pblock)                (* afterwards: the block records SERVED by the store the node runs on (a freshly opened
+                                                  one when no process runs) at the store height and one above it (the pending block) *)
 }.
 
 Record pcase := mk_case {
@@ -114,16 +117,18 @@ Definition proj_block (c : cfg) (m : img) (n : N) : option pblock :=
         (b2n (validate_basic sh)))
   end.
 
-Definition proj_obs (st : mach) (o : iout) : obs :=
+Definition proj_obs (c : cfg) (st : mach) (o : iout) : obs :=
   let '(code, n) := res_code (o_res o) in
-  mk_obs code n (o_call o) (o_req o) (map write_shape (o_ws o)) (g_height (img_of st))
-         (match g_state (img_of st) with Some s => Some (s_height s, s_time s, s_app s) | None => None end).
+  let m := img_of st in
+  mk_obs code n (o_call o) (o_req o) (map write_shape (o_ws o)) (g_height m)
+         (match g_state m with Some s => Some (s_height s, s_time s, s_app s) | None => None end)
+         [proj_block c m (g_height m); proj_block c m (g_height m + 1)].
 
 Fixpoint run_obs (c : cfg) (st : mach) (h : list item) : mach * list obs :=
   match h with
   | [] => (st, [])
   | i :: r => let '(st', o) := exec_item c st i in
-              let '(st'', os) := run_obs c st' r in (st'', proj_obs st' o :: os)
+              let '(st'', os) := run_obs c st' r in (st'', proj_obs c st' o :: os)
   end.
 
 (* heights lo, lo+1, ..., lo+len-1 *)
@@ -161,16 +166,17 @@ Definition call_eqb (a b : N * list N * Z * N) : bool :=
 Definition state_eqb (a b : N * Z * N) : bool :=
   let '(h, z, p) := a in let '(h', z', p') := b in (h =? h') && (z =? z')%Z && (p =? p').
 
-Definition obs_eqb (a b : obs) : bool :=
-  (ob_res a =? ob_res b) && (ob_n a =? ob_n b) && opt_eqb call_eqb (ob_call a) (ob_call b) &&
-  opt_eqb N.eqb (ob_req a) (ob_req b) && list_eqb shape_eqb (ob_shapes a) (ob_shapes b) &&
-  (ob_height a =? ob_height b) && opt_eqb state_eqb (ob_state a) (ob_state b).
-
 Definition pblock_eqb (a b : pblock) : bool :=
   (pb_height a =? pb_height b) && (pb_time a =? pb_time b)%Z && list_eqb N.eqb (pb_txs a) (pb_txs b) &&
   (pb_link a =? pb_link b) && (pb_dh a =? pb_dh b) && (pb_app a =? pb_app b) && (pb_chain a =? pb_chain b) &&
   (pb_prop a =? pb_prop b) && (pb_hsig a =? pb_hsig b) && (pb_signer a =? pb_signer b) && (pb_ssig a =? pb_ssig b) &&
   (pb_meta a =? pb_meta b) && (pb_vbasic a =? pb_vbasic b).
+
+Definition obs_eqb (a b : obs) : bool :=
+  (ob_res a =? ob_res b) && (ob_n a =? ob_n b) && opt_eqb call_eqb (ob_call a) (ob_call b) &&
+  opt_eqb N.eqb (ob_req a) (ob_req b) && list_eqb shape_eqb (ob_shapes a) (ob_shapes b) &&
+  (ob_height a =? ob_height b) && opt_eqb state_eqb (ob_state a) (ob_state b) &&
+  list_eqb (opt_eqb pblock_eqb) (ob_tip a) (ob_tip b).
 
 (* 1 = per-item observations differ, 2 = final blocks differ *)
 Definition check_case (k : pcase) : list N :=
